@@ -158,6 +158,37 @@ Section DadiCaches.
 End DadiCaches.
 
 (* ------------------------------------------------------------------------------------------ *)
+(** ** A dictionary SHARED by all the functions a maker generates.
+
+    [make_low_pass_func_GATK_multisample(func, cov_dist, pop_ids, nseq, nsub, sim_threshold, Fx, nsim)] returns a
+    closure.  While the dictionary is a local of the maker (section LowPassClosure above) every generated function has
+    its own; if it is hoisted to module level, ALL generated functions share it and a call must be identified by the
+    environment its function closes over as well: the key expression then has to keep everything of that environment
+    the stored value is computed from.  [kproj] is what the key expression keeps. *)
+Section SharedClosureCache.
+  Variables Env Args KeyT Precalc : Type.
+  Variable kproj : Env -> KeyT.
+  Variable precalc : Env -> Precalc.
+  Definition sh_call := (Env * Args)%type.       (* the environment of the generated function, its own arguments *)
+  Definition sh_key (c : sh_call) : KeyT := kproj (fst c).
+  Definition sh_f (c : sh_call) : Precalc := precalc (fst c).
+End SharedClosureCache.
+
+Arguments sh_key {Env Args KeyT} kproj c.
+Arguments sh_f {Env Args Precalc} precalc c.
+
+(** the low-pass environment.  cov_dist is a dict  population name -> depth-of-coverage distribution; numbers are
+    abstract (Z stands for the float's bit pattern) *)
+Record lp_env := { le_cov : list (nat * list Z); le_nseq : list Z; le_nsub : list Z; le_Fx : list Z; le_thr : Z; le_nsim : Z }.
+
+(** a key that keeps the whole environment ... *)
+Definition lp_key_full (e : lp_env) : list (nat * list Z) * list Z * list Z * list Z * Z * Z :=
+  (le_cov e, le_nseq e, le_nsub e, le_Fx e, le_thr e, le_nsim e).
+(** ... and one written [tuple(cov_dist)]: iterating a dict yields its KEYS, the distributions are dropped *)
+Definition lp_key_names (e : lp_env) : list nat * list Z * list Z * list Z * Z * Z :=
+  (map fst (le_cov e), le_nseq e, le_nsub e, le_Fx e, le_thr e, le_nsim e).
+
+(* ------------------------------------------------------------------------------------------ *)
 (** ** Godambe.cache: the key contains func_ex.__hash__(), the ADDRESS of the function object.
 
     Every top-level call (GIM_uncert / FIM_uncert with multinom=True, LRT_adjust always) creates a new closure,
